@@ -7,6 +7,7 @@ import SodiumModel.Driver.C04
 import SodiumModel.Driver.C09
 import SodiumModel.Driver.C01
 import SodiumModel.Driver.C18
+import SodiumModel.Driver.C17
 open Sodium.Driver
 
 def handlers : List (String → List String → Option String) := [
@@ -16,7 +17,8 @@ def handlers : List (String → List String → Option String) := [
   Sodium.Driver.C03.handle,
   Sodium.Driver.C04.handle,
   Sodium.Driver.C01.handle,
-  Sodium.Driver.C18.handle
+  Sodium.Driver.C18.handle,
+  Sodium.Driver.C17.handle
 ]
 
 /-- state carried between op lines (stateful families only) -/
